@@ -15,7 +15,7 @@ Model driver for C15 (strings). Stateful line protocol (one request → one resp
     trailing (G …) lists give the grapheme-cluster byte lengths of the strings whose segmentation
     the operation may consult (the harness computes them with unicode-segmentation).
 
-  ops: apiwb D hi | apisp D hi | fmtf <xopts> f<bits> (float value: never compared, answer `F`) | idx D lo hi | rng D lo hi | unpx D | unph D k | unpt D k | chars D | rchars D | cidx D | bytes D | lines D
+  ops: apiwb D hi | apisp D hi | idx D lo hi | rng D lo hi | unpx D | unph D k | unpt D k | chars D | rchars D | cidx D | bytes D | lines D
        | trim D | trimp D <xpat> | pat D <xpat> | replace D <xpat> <xto> | repeat D n | case D
        | tonum <xhex> | tonumb <xhex> base | lit <xhex> | fparse <xhex> | fmt <xopts> <val>
   Responses: canonical values `s<xhex> | null | b0 | b1 | i<n> | F | (r a b 0) | (t …)`,
@@ -26,6 +26,7 @@ Model driver for C15 (strings). Stateful line protocol (one request → one resp
 import KotoVerif.Common.Proto
 import KotoVerif.Model.Str
 import KotoVerif.Model.FmtSpec
+import KotoVerif.Common.ValueIO
 
 open KotoVerif KotoVerif.Proto KotoVerif.Utf8 KotoVerif.Str KotoVerif.FmtSpec
 
@@ -48,6 +49,8 @@ structure DSt where
   fix12 : Bool := false
   fix13 : Bool := false
   fix14 : Bool := false
+  fix15 : Bool := false
+  fix16 : Bool := false
 
 structure SegTab where
   s : Bytes
@@ -126,6 +129,7 @@ def pErrStr : PErr → String
   | .expectedNumber _ => "E:fmt:ExpectedNumber"
   | .tooLarge => "E:fmt:FormatNumberIsTooLarge"
   | .unexpectedToken _ => "E:fmt:UnexpectedToken"
+  | .reprNotInteger => "E:repr"
 
 def alignStr : Align → String
   | .default => "D" | .left => "L" | .center => "C" | .right => "R"
@@ -149,6 +153,49 @@ def parseFVal (a : String) : Option FVal :=
   | 'i' :: r => (String.ofList r).toInt?.map .int
   | 's' :: r => (bytesOfHex (String.ofList r)).map .str
   | _ => none
+
+def parseSimple (a : String) : Option Simple :=
+  match a.toList with
+  | ['n', 'u', 'l', 'l'] => some .null
+  | ['b', '0'] => some (.bool false)
+  | ['b', '1'] => some (.bool true)
+  | 'i' :: r => (String.ofList r).toInt?.map .int
+  | 's' :: r => (bytesOfHex (String.ofList r)).map .str
+  | 'o' :: r =>
+    (match (String.ofList r).splitOn ";" with
+     | [d, g] => do pure (.obj (← bytesOfHex d) (← bytesOfHex g))
+     | _ => none)
+  | _ => none
+
+def inner (a : String) (pre : String) : Option (List String) :=
+  if a.startsWith pre ∧ a.endsWith "]" then
+    let cs := a.toList
+    some ((String.ofList ((cs.drop pre.length).take (cs.length - pre.length - 1))).splitOn "," |>.filter (· ≠ ""))
+  else none
+
+/-- values of every kind: `null b0 b1 i<n> s<xhex> f<16 hex bits>/<xdigits>/<exp> T[e,…] L[e,…] M[<xkey>=e,…]
+O[<xdisplay>,<xdebug>]` with elements `null b0 b1 i<n> s<xhex> o<xdisplay>;<xdebug>` -/
+def parseXVal (a : String) : Option XVal :=
+  if a.startsWith "f" ∧ a.contains '/' then
+    (match a.splitOn "/" with
+     | [b, d, e] => do
+       let bits ← ValueIO.parseHex64 (b.toList.drop 1)
+       let ds ← bytesOfHex d
+       let ex ← e.toInt?
+       pure (.float bits.toNat { digits := ds, exp := ex })
+     | _ => none)
+  else if a.startsWith "T[" then (inner a "T[").bind fun xs => (xs.mapM parseSimple).map .tuple
+  else if a.startsWith "L[" then (inner a "L[").bind fun xs => (xs.mapM parseSimple).map .list
+  else if a.startsWith "M[" then
+    (inner a "M[").bind fun xs =>
+      (xs.mapM fun (kv : String) => match kv.splitOn "=" with
+        | [k, v] => do pure ((← bytesOfHex k), (← parseSimple v))
+        | _ => none).map .map
+  else if a.startsWith "O[" then
+    (match inner a "O[" with
+     | some [d, g] => do pure (.obj (← bytesOfHex d) (← bytesOfHex g))
+     | _ => none)
+  else (parseFVal a).map .base
 
 def spaced (xs : List String) : String := " ".intercalate xs
 
@@ -210,7 +257,6 @@ def handleOp (st : DSt) (line : String) : String :=
            else "(" ++ hexOfBytes p.bytes ++ " !)"
          | none => "none")
      | _, _ => "bad-request")
-  | ["fmtf", _, _] => "F"
   | ["chars", d] =>
     (match parseDesc d with
      | some s =>
@@ -302,9 +348,11 @@ def handleOp (st : DSt) (line : String) : String :=
         | .error e => pErrStr e)
      | none => "bad-request")
   | ["fmt", h, v] =>
-    (match bytesOfHex h, parseFVal v with
+    (match bytesOfHex h, parseXVal v with
      | some b, some v =>
-       (match format U.gFirst b v st.fix2 st.fix8 st.fix14 with
+       let cfg : FmtCfg := { exactCenter := st.fix2, clusterFirst := st.fix8, signAware := st.fix14,
+                             precRepr := st.fix15, radixStrict := st.fix16 }
+       (match formatX U.gFirst b v cfg with
         | .ok r => "s" ++ hexOfBytes r
         | .error e => pErrStr e)
      | _, _ => "bad-request")
@@ -329,7 +377,8 @@ def step (st : DSt) (line : String) : DSt × String :=
                fix3 := st.fix3 || ids.contains "F-C15-3", fix6 := st.fix6 || ids.contains "F-C15-6", fix8 := st.fix8 || ids.contains "F-C15-8",
                fix9 := st.fix9 || ids.contains "F-C15-9", fix10 := st.fix10 || ids.contains "F-C15-10", fix11 := st.fix11 || ids.contains "F-C15-11",
                fix12 := st.fix12 || ids.contains "F-C15-12", fix13 := st.fix13 || ids.contains "F-C15-13",
-               fix14 := st.fix14 || ids.contains "F-C15-14" }, "ok")
+               fix14 := st.fix14 || ids.contains "F-C15-14", fix15 := st.fix15 || ids.contains "F-C15-15",
+               fix16 := st.fix16 || ids.contains "F-C15-16" }, "ok")
   else (st, handleOp st line)
 
 def main : IO Unit := Proto.serveSt ({} : DSt) step
